@@ -14,7 +14,7 @@
 #include "kmodel.h"
 #include "pmodel.h"
 
-#define MAXW 6
+#define MAXW 10
 
 struct wrec {
 	struct iv_work_item *it;
@@ -93,7 +93,7 @@ static void work_fn(void *c)
 		max_running = running_now;
 	if (!P_nullpool)
 		sx_assert(running_now <= maxthr, "C12.more-work-running-than-max_threads");
-	if (P_cont && w->id == 0 && next_to_submit < nW && pool_alive) {
+	if (P_cont && (w->id == 0 || P_cont == 2) && next_to_submit < nW && pool_alive) {
 		/* a continuation submitted from inside a worker (the application still holds the pool) */
 		sx_cover("work.continuation-from-worker");
 		submit(&W[next_to_submit++], 1);
@@ -280,7 +280,7 @@ void sx_main(void)
 	P_nullpool = (int)sx_opt("nullpool", 0);
 	burst = (int)sx_opt("burst", nW);
 	k_idle_hook = idle;
-	k_env_exclude = sx_opt("poll", 0) ? "epoll-timerfd epoll ppoll" : "epoll-timerfd";
+	k_env_exclude = sx_opt("poll", 0) ? "epoll-timerfd epoll ppoll" : sx_opt("tfd", 0) ? NULL : "epoll-timerfd";
 	if (sx_opt("hb", 0))
 		sx_hb_enable();
 	owner_tid = sx_tid();
